@@ -110,7 +110,30 @@ var kindNames = map[protoreflect.Kind]string{
 	protoreflect.Uint32Kind: "KUint32", protoreflect.Int64Kind: "KInt64", protoreflect.Sint64Kind: "KSint64", protoreflect.Uint64Kind: "KUint64",
 	protoreflect.Sfixed32Kind: "KSfixed32", protoreflect.Fixed32Kind: "KFixed32", protoreflect.FloatKind: "KFloat", protoreflect.Sfixed64Kind: "KSfixed64",
 	protoreflect.Fixed64Kind: "KFixed64", protoreflect.DoubleKind: "KDouble", protoreflect.StringKind: "KString", protoreflect.BytesKind: "KBytes",
-	protoreflect.MessageKind: "KMessage", protoreflect.GroupKind: "KGroup",
+	protoreflect.MessageKind: "KMessage", protoreflect.GroupKind: "KGroup", protoreflect.Kind(0): "KInvalid",
+}
+
+// Description is the text the reader derives from the source comments of a
+// descriptor (leading then trailing comment lines, trimmed, empty lines and
+// lines starting with '#' dropped, joined by newline).
+func Description(d protoreflect.Descriptor) string {
+	loc := d.ParentFile().SourceLocations().ByDescriptor(d)
+	var all []string
+	if loc.LeadingComments != "" {
+		all = append(all, strings.Split(loc.LeadingComments, "\n")...)
+	}
+	if loc.TrailingComments != "" {
+		all = append(all, strings.Split(loc.TrailingComments, "\n")...)
+	}
+	var out []string
+	for _, c := range all {
+		c = strings.TrimSpace(c)
+		if c == "" || strings.HasPrefix(c, "#") {
+			continue
+		}
+		out = append(out, c)
+	}
+	return strings.Join(out, "\n")
 }
 
 func KindTerm(k protoreflect.Kind) string { return kindNames[k] }
@@ -356,6 +379,8 @@ func vtyTerm(fc *validate.FieldConstraints) string {
 	case *validate.FieldConstraints_Map:
 		r := t.Map
 		return fmt.Sprintf("(VMap %s %s %s)", optN(r.MinPairs), optN(r.MaxPairs), dumpFCon(r.Values))
+	case *validate.FieldConstraints_Bytes:
+		return fmt.Sprintf("(VBytes %s %s)", optN(t.Bytes.MinLen), optN(t.Bytes.MaxLen))
 	default:
 		return "VOther"
 	}
@@ -444,6 +469,12 @@ func dumpJ5(fo *ext_j5pb.FieldOptions) string {
 		}
 		r := t.Date.Rules
 		return some("(JDate " + some(strBounds(r.Minimum, r.Maximum, r.ExclusiveMinimum, r.ExclusiveMaximum)) + ")")
+	case *ext_j5pb.FieldOptions_Decimal:
+		if t.Decimal.Rules == nil {
+			return some("(JDecimal None)")
+		}
+		dr := t.Decimal.Rules
+		return some("(JDecimal " + some(strBounds(dr.Minimum, dr.Maximum, dr.ExclusiveMinimum, dr.ExclusiveMaximum)) + ")")
 	case *ext_j5pb.FieldOptions_Key:
 		switch k := t.Key.Type.(type) {
 		case nil:
@@ -499,8 +530,8 @@ func fieldTerm(fd protoreflect.FieldDescriptor) string {
 	if o := fd.ContainingOneof(); o != nil {
 		oneof = some(fmt.Sprintf("%d", o.Index()))
 	}
-	return fmt.Sprintf("Fld %s %s %d %s %s %s %s %s", Str(string(fd.Name())), Str(fd.JSONName()), fd.Number(),
-		KindTerm(typed.Kind()), card, oneof, ty, fieldOpts(fd, typed))
+	return fmt.Sprintf("Fld %s %s %d %s %s %s %s %s %s", Str(string(fd.Name())), Str(fd.JSONName()), fd.Number(),
+		KindTerm(typed.Kind()), card, oneof, ty, fieldOpts(fd, typed), Str(Description(fd)))
 }
 
 func msgTerm(md protoreflect.MessageDescriptor) string {
@@ -515,7 +546,7 @@ func msgTerm(md protoreflect.MessageDescriptor) string {
 		if oo, _ := proto.GetExtension(o.Options(), ext_j5pb.E_Oneof).(*ext_j5pb.OneofOptions); oo != nil {
 			ext = some(boolT(oo.Expose))
 		}
-		oneofs = append(oneofs, fmt.Sprintf("Oneof %s %s %s %s", Str(string(o.Name())), Str(strcase.ToLowerCamel(string(o.Name()))), boolT(o.IsSynthetic()), ext))
+		oneofs = append(oneofs, fmt.Sprintf("Oneof %s %s %s %s %s", Str(string(o.Name())), Str(strcase.ToLowerCamel(string(o.Name()))), boolT(o.IsSynthetic()), ext, Str(Description(o))))
 	}
 	mo := "None"
 	if m, _ := proto.GetExtension(md.Options(), ext_j5pb.E_Message).(*ext_j5pb.MessageOptions); m != nil {
@@ -536,7 +567,7 @@ func msgTerm(md protoreflect.MessageDescriptor) string {
 		}
 		psm = some(fmt.Sprintf("(PsmOpt %s %s)", Str(p.EntityName), part))
 	}
-	return fmt.Sprintf("Msg %s %s %s\n      %s\n      %s %s %s", Str(string(md.FullName())), Str(pkg), strList(path), list(fields), list(oneofs), mo, psm)
+	return fmt.Sprintf("Msg %s %s %s\n      %s\n      %s %s %s %s", Str(string(md.FullName())), Str(pkg), strList(path), list(fields), list(oneofs), mo, psm, Str(Description(md)))
 }
 
 func infoTerm(m map[string]string) string {
@@ -564,7 +595,7 @@ func enumTerm(ed protoreflect.EnumDescriptor) string {
 		if o, _ := proto.GetExtension(v.Options(), ext_j5pb.E_EnumValue).(*ext_j5pb.EnumValueOptions); o != nil && o.Info != nil {
 			info = infoTerm(o.Info)
 		}
-		vals = append(vals, fmt.Sprintf("EnumVal %s %s %s", Str(string(v.Name())), zT(int64(v.Number())), info))
+		vals = append(vals, fmt.Sprintf("EnumVal %s %s %s %s", Str(string(v.Name())), zT(int64(v.Number())), info, Str(Description(v))))
 	}
 	eo := "None"
 	if o, _ := proto.GetExtension(ed.Options(), ext_j5pb.E_Enum).(*ext_j5pb.EnumOptions); o != nil {
@@ -574,7 +605,7 @@ func enumTerm(ed protoreflect.EnumDescriptor) string {
 		}
 		eo = some(fmt.Sprintf("(EnumOpt %s %s)", boolT(o.NoDefault), list(fs)))
 	}
-	return fmt.Sprintf("Enum %s %s %s %s %s", Str(string(ed.FullName())), Str(pkg), strList(path), list(vals), eo)
+	return fmt.Sprintf("Enum %s %s %s %s %s %s", Str(string(ed.FullName())), Str(pkg), strList(path), list(vals), eo, Str(Description(ed)))
 }
 
 // DescTerm dumps the generated files of a linked set, plus every message / enum
